@@ -77,3 +77,11 @@ Fixpoint first_bad (n : node) (l : list (op * obs)) (i : nat) : option (nat * re
 (* link between operands that are nodes, never-run Models or lists: observed = a ValueError was raised at link time *)
 Definition chk_links (senders receivers : list node) (raised : bool) : bool :=
   match link_check senders receivers with ROk _ => negb raised | RErr _ => raised end.
+
+(* Model.fit on a model whose node kinds are ks (all fresh): observed = (a TypeError was raised, every node untouched and
+   uninitialised).  The model only predicts the refusal; an accepted fit is not compared here. *)
+Definition chk_model_fit (ks : list kind) (typeerror untouched : bool) : bool :=
+  match model_fit_guard (map (fun k => fresh k None None) ks) with
+  | Some _ => typeerror && untouched
+  | None => true
+  end.
